@@ -72,6 +72,29 @@ theorem cast_lift_ok_on_float (s x : XR) :
     mixedMaxCast s (.f x) = mixedMax s (.f x) ∧ mixedMinCast s (.f x) = mixedMin s (.f x) :=
   ⟨rfl, rfl⟩
 
+/-! ## helpers are pure functions of the dtype tag -/
+
+/-- `ops.finfo` answers for the dtype it is asked about, after any history of earlier requests. -/
+theorem finfo_pure (h₁ h₂ : List FloatTy) (dt : FloatTy) :
+    finfoAfter h₁ dt = finfoAfter h₂ dt ∧ finfoAfter h₁ dt = finfoOf dt := ⟨rfl, rfl⟩
+
+/-- A cache keyed by the dtype kind is NOT that function: after one float32 request, float64 is
+    reported with float32's limits (max 2^128 ≈ 3.4e38 instead of 2^1024 ≈ 1.8e308). -/
+theorem finfo_kind_cache_witness :
+    finfoKindCached [.f32] .f64 = finfoOf .f32 ∧ finfoKindCached [.f32] .f64 ≠ finfoOf .f64 ∧
+    (finfoKindCached [.f32] .f64).maxExp = 128 ∧ (finfoOf .f64).maxExp = 1024 := by decide
+
+/-- … and it is right exactly when nothing was asked before, or the first request had the same type. -/
+theorem finfo_kind_cache_ok_iff (h : List FloatTy) (dt : FloatTy) :
+    finfoKindCached h dt = finfoOf dt ↔ (h = [] ∨ h.head? = some dt) := by
+  cases h with
+  | nil => simp [finfoKindCached]
+  | cons a t =>
+    simp only [finfoKindCached, List.head?_cons, Option.some.injEq, reduceCtorEq, false_or]
+    constructor
+    · intro hh; revert hh; cases a <;> cases dt <;> decide
+    · intro hh; rw [hh]
+
 example : embed (.i 3) ≠ XR.nan := embed_not_nan_int 3
 
 end FV.Props.C15.Dt
